@@ -49,6 +49,51 @@ def body_sum(case, ctx):
     expect_unchanged(ra, rows, a["dt"], "colsum-operand")
 
 
+def exact_in_float64(x):
+    return abs(x) <= 2**53 or int(float(x)) == x
+
+
+def body_sum_large(case, ctx):
+    """64-bit magnitudes: a column is compared whenever every partial sum (in row order) is exactly representable in
+    float64, i.e. whenever a correct float64 accumulation has exactly one possible answer"""
+    a, rows, ra = common(case, ctx, "spell:" + case["spell"])
+    cols = columns([[int(v) for v in r] for r in rows])
+    with np.errstate(all="ignore"):
+        got = lib(lambda: ra.sum(axis=0) if case["spell"] == "method" else np.sum(ra, axis=0))
+    if not got.ok:
+        raise Violation("colsum-large:unexpected-refusal", got=got.brief())
+    v = np.asarray(got.value)
+    if v.shape != (len(cols),):
+        raise Violation("colsum-large:shape", expected=len(cols), got=list(v.shape))
+    compared = 0
+    for j, c in enumerate(cols):
+        partial, ok = 0, True
+        for x in c:
+            partial += x
+            ok = ok and exact_in_float64(partial) and exact_in_float64(x)
+        if not ok:
+            continue
+        compared += 1
+        if float(v[j]) != float(partial):
+            raise Violation("colsum-large:value", column=j, expected=partial, got=float(v[j]), column_values=c)
+    ctx.label("compared-columns:%d" % min(compared, 3), "has-value>=2**63" if any(x >= 2**63 for c in cols for x in c) else "all<2**63")
+    ctx.nt(any(abs(x) > 2**53 for c in cols for x in c) and compared > 0)
+    expect_unchanged(ra, rows, a["dt"], "colsum-operand")
+
+
+@st.composite
+def large_case(draw, tier):
+    dt = draw(st.sampled_from(["uint64", "uint64", "int64"]))
+    lens = draw(gen.lengths(tier, min_rows=1, max_rows=4, max_len=4))
+    if sum(lens) == 0:
+        lens = lens + [1]
+    lo, hi = gen.int_range(dt)
+    big = st.sampled_from(sorted({0, 0, 1, hi, hi - 2047 if dt == "uint64" else hi - 1023, 2**63 if dt == "uint64" else -2**63, 2**62, 2**53, 2**53 + 2, lo}))
+    vals = draw(st.lists(st.one_of(big, st.integers(0, 3)), min_size=sum(lens), max_size=sum(lens)))
+    return {"a": {"lens": lens, "dt": dt, "vals": vals}, "spell": draw(st.sampled_from(["method", "np"])), "j": 0,
+            "lz": draw(st.sampled_from([0, 0, 1, 2]))}
+
+
 def body_counts(case, ctx):
     a, rows, ra = common(case, ctx)
     exp = np.array([len(c) for c in columns(rows)])
@@ -100,6 +145,8 @@ def col_case(draw, tier, specials=True):
 SUBCHECKS = [
     SubCheck("column-sum", body_sum, col_case, quick=7000, thorough=400000, shards_quick=4,
              doc="sum(axis=0) / np.sum(axis=0): per column the sum over exactly the rows that reach it (bool: count)"),
+    SubCheck("column-sum-64bit", body_sum_large, large_case, quick=3000, thorough=200000, shards_quick=2,
+             doc="uint64 / int64 values up to the dtype extremes; columns whose partial sums are exactly representable are compared"),
     SubCheck("col-counts", body_counts, col_case, quick=3000, thorough=200000, shards_quick=2,
              doc="col_counts() = number of rows with more than j elements"),
     SubCheck("column-mean", body_mean, col_case, quick=5000, thorough=300000, shards_quick=3,
